@@ -7,6 +7,9 @@ import ast
 from sa import sveval
 
 
+TYPE_NAMES = {"bytes": bytes, "bytearray": bytearray, "memoryview": memoryview, "str": str, "int": int, "list": list, "tuple": tuple}
+
+
 def chunk_only(sv, PC):
     """the value depends on the chunk parameter and constants only"""
     if not isinstance(sv, tuple) or not sv:
@@ -14,7 +17,9 @@ def chunk_only(sv, PC):
     h = sv[0]
     if h == "p":
         return sv == PC
-    if h in ("f0", "prop", "g", "l", "new", "iter", "mut", "await", "bound", "havoc", "opaque", "sent", "calldyn"):
+    if h == "g":
+        return sv[1] in TYPE_NAMES or (isinstance(sv[1], str) and sv[1].isupper())  # a builtin type name / a module constant
+    if h in ("f0", "prop", "l", "new", "iter", "mut", "await", "bound", "havoc", "opaque", "sent", "calldyn"):
         return False
     return all(chunk_only(x, PC) for x in sv[1:] if isinstance(x, tuple))
 
@@ -25,12 +30,15 @@ def mentions(sv, target):
     return isinstance(sv, tuple) and any(mentions(x, target) for x in sv if isinstance(x, tuple))
 
 
-def taken_for(conds, PC, samples):
+def taken_for(conds, PC, samples, consts=None):
     """the sample chunks for which every condition (sv, polarity) has the recorded outcome; None when one cannot be evaluated"""
     out = []
     for smp in samples:
         try:
-            if all(bool(sveval.ev(g, {PC: smp})) == pol for g, pol in conds):
+            env = {PC: smp}
+            env.update({("g", k): v for k, v in TYPE_NAMES.items()})
+            env.update(consts or {})
+            if all(bool(sveval.ev(g, env)) == pol for g, pol in conds):
                 out.append(smp)
         except (sveval.CannotEval, KeyError, TypeError, IndexError, ValueError):
             return None
